@@ -269,6 +269,17 @@ def step (v : Variant) (s : St) : Op → St
 
 def run (v : Variant) (s : St) (ops : List Op) : St := ops.foldl (step v) s
 
+/-! ## Cloud-control faults
+
+`RemoveControlConnection`, the stale sweep's callback and `handleHeartbeat` call the cloud control
+(`DisconnectClientIfMatch`, `EnsureClientOnline`) around the registry update and only log its error.
+A history with fault points is a list of `(op, the cloud-control store fails during this op)`;
+the registry semantics does not look at the flag: the error is logged, the entry is removed. -/
+
+abbrev FOp := Op × Bool
+
+def runF (v : Variant) (s : St) (fops : List FOp) : St := run v s (fops.map Prod.fst)
+
 /-! ## Finer steps (only for the recorded finding `evict-close-window`)
 
 `KickOldConnection` releases the registry lock between removing the old connection from the
